@@ -98,6 +98,14 @@ Proof.
   - intros H. right. eapply lookup_remove_key; exact H.
 Qed.
 
+Lemma ext_stop s u self t s' o p : stop_if_parent_gone s u self t = (s', o, p) -> ext s s'.
+Proof.
+  intros H. apply ext_of_keep; [eapply keep_stop; exact H|]. revert H.
+  unfold stop_if_parent_gone. destruct (get s u) as [pa|]; [|intros H; inversion H; subst; apply regsame_refl].
+  destruct (st_ge_terminating (a_st pa)); [|intros H; inversion H; subst; apply regsame_refl].
+  destruct (terminate s self t (a_graceful pa)) as [s1 o1] eqn:E. intros H; inversion H; subst. eapply regsame_terminate; exact E.
+Qed.
+
 Lemma ext_spawn s u self t r s' o p : spawn s u self t r = (s', o, p) -> ext s s'.
 Proof.
   intros Hsp. pose proof (keep_spawn _ _ _ _ _ _ _ _ Hsp) as K. revert Hsp.
@@ -107,7 +115,12 @@ Proof.
   set (s2 := set_actors s1 (actors s1 ++ [new_actor t self r inst])).
   destruct (lookup t (registry s2)).
   - intros H; inversion H; subst. apply ext_of_keep; [exact K|]. unfold regsame, s2, set_actors; cbn [registry]. exact R1.
-  - intros H; inversion H; subst. split; [apply keep_mono; exact K|].
+  - intros H. eapply ext_trans; [|eapply ext_stop; exact H].
+    assert (K5 : keep s (deliver_sys (upd_actor (set_registry s2 (set_key t (length (actors s1)) (registry s2))) u
+                      (fun a => w_children (insert_sorted t (a_children a)) a)) t self SLaunch)).
+    { eapply keep_trans; [|apply keep_deliver_sys]. eapply keep_trans; [|apply keep_upd_actor; kp]. eapply keep_trans; [|apply keep_set_registry].
+      eapply keep_trans; [apply keep_same_actors; exact A1|apply keep_append]. }
+    split; [apply keep_mono; exact K5|].
     intros t' u' Hl.
     rewrite regsame_deliver_sys, regsame_upd_actor in Hl. cbn [registry set_registry s2 set_actors] in Hl.
     apply lookup_set_key in Hl. destruct Hl as [[-> ->]|Hl]; [|left; rewrite <- R1; exact Hl].
